@@ -262,3 +262,15 @@ M("C11", "grammar-alias-renamed", "c2profile.lark", "    | \"SetThreadContext\" 
 M("C11", "option-tree-order", "c2profile.py", "                [\n                    Token(\"OPTION\", option),\n                    Tree(\"string\", [Token(\"STRING\", value)]),\n                ],", "                [\n                    Tree(\"string\", [Token(\"STRING\", value)]),\n                    Token(\"OPTION\", option),\n                ],", "C11.R3")
 M("C11", "mask-as-termination", "c2profile.py", "            if option in (\"base64\", \"base64url\", \"mask\", \"netbios\", \"netbiosu\"):", "            if option in (\"base64\", \"base64url\", \"netbios\", \"netbiosu\"):", "C11.R3")
 T("C11", "twin-list-props-tuple", "c2profile.py", "            \"http-get.server.output\",\n        ]", "            \"http-get.server.output\",\n            \"http-post.client.metadata\",\n        ]")
+
+# =============================================================================== C12
+M("C12", "no-quote-escape", "c2profile.py", "        value = value.replace('\"', '\\\\\"')\n", "", "C12.R1")
+M("C12", "quote-escape-elif", "c2profile.py", "    if isinstance(value, str):\n        # we escape double quotes", "    elif isinstance(value, str):\n        # we escape double quotes", "C12.R1")
+M("C12", "repr-without-pin", "c2profile.py", "        value = repr(b'\"' + value)[3:-1]", "        value = repr(value)[2:-1]", "C12.R1")
+M("C12", "cr-decodes-to-lf", "c2profile.py", "                    buffer.append(ord(\"\\r\"))", "                    buffer.append(ord(\"\\n\"))", "C12.R2")
+M("C12", "single-quote-unhandled", "c2profile.py", "                elif next2 == \"'\":\n                    buffer.append(ord(\"'\"))\n", "", "C12.R2")
+M("C12", "hex-no-length-check", "c2profile.py", "                    if not it.has_next(2):\n                        raise ValueError(\"not enough remaining chars for \\\\xXX\")\n", "", "C12.R2")
+M("C12", "unicode-takes-high-pair", "c2profile.py", "                    _ = it.next(2)\n                    hexstr = \"\".join(it.next(2))", "                    hexstr = \"\".join(it.next(2))\n                    _ = it.next(2)", "C12.R2")
+M("C12", "string-regex-no-lookbehind", "c2profile.lark", "STRING: \"\\\"\" /(.|\\n)*?/ /(?<!\\\\)(\\\\\\\\)*?/ \"\\\"\"", "STRING: \"\\\"\" /(.|\\n)*?/ \"\\\"\"", "C12.R4")
+M("C12", "string-regex-greedy", "c2profile.lark", "STRING: \"\\\"\" /(.|\\n)*?/ /(?<!\\\\)(\\\\\\\\)*?/ \"\\\"\"", "STRING: \"\\\"\" /(.|\\n)*/ /(?<!\\\\)(\\\\\\\\)*?/ \"\\\"\"", "C12.R4")
+T("C12", "twin-tab-literal", "c2profile.py", "                    buffer.append(ord(\"\\t\"))", "                    buffer.append(9)")
